@@ -1,5 +1,968 @@
 import SradModel.Model.EonSpec
 
 namespace Srad.Eon.P01
+open Srad.Eon
+
+/-! ### vocabulary of the state invariant -/
+
+/-- the oneshot the event loop is waiting on -/
+def awaitOf : LoopPc → Option Nat
+  | .awaitWill o | .stopAwaitWill o | .forceAwaitWill o => some o
+  | _ => none
+
+/-- the oneshot whose `Offline` message the event loop still has to send -/
+def pendOf : LoopPc → Option Nat
+  | .sendCs (.offline o) | .stopSendCs o | .forceSendCs o => some o
+  | _ => none
+
+/-- the node task is not inside a (re)birth -/
+def quietN : NodePc → Bool
+  | .idle | .inCb _ | .done => true
+  | _ => false
+
+structure SInv (s : St) : Prop where
+  bo : s.birthed = true → s.online = true
+  busy : quietN s.node = false → s.online = true
+  cg : ∀ c ∈ s.calls, c.kind.bearsSeq = true → c.gOnline = true ∧ c.gBirthed = true
+  wn : ∀ id bt fc, s.node = .waitNb id bt fc → s.birthed = false ∧ id < s.calls.length
+  w : (s.loop = .start ∨ (awaitOf s.loop).isSome = true) → s.cs ≠ some .online
+  q0 : s.loop = .start → s.birthed = false ∧ quietN s.node = true
+  q1 : ∀ o bd, awaitOf s.loop = some o → reply? s o = some (some bd) →
+        s.birthed = false ∧ quietN s.node = true
+  f1 : ∀ p ∈ s.oneshots, p.1 < s.nextOneshot
+  f2 : ∀ o, s.cs = some (.offline o) → o < s.nextOneshot
+  f3 : ∀ o, pendOf s.loop = some o →
+        o < s.nextOneshot ∧ reply? s o = none ∧ s.cs ≠ some (.offline o)
+
+theorem SInv_init (cd : Nat) : SInv (init cd) := by
+  constructor <;> simp [init, awaitOf, pendOf, quietN, reply?]
+
+theorem reply_none_of_fresh (l : List (Nat × Option Nat)) (n o : Nat) (h : ∀ p ∈ l, p.1 < n)
+    (ho : n ≤ o) : (l.find? (·.1 == o)).map (·.2) = none := by
+  simp only [Option.map_eq_none_iff, List.find?_eq_none]
+  intro p hp
+  have := h p hp
+  simp; omega
+
+/-- observations neither scanner of C01 looks at -/
+def quietO : Obs → Bool
+  | .poll | .polled _ | .ures _ _ | .cbNcmd | .cbDcmd _ | .bDev _ | .runReturned => true
+  | _ => false
+
+/-! ### the event-loop task -/
+
+def KeepL (s s' : St) : Prop :=
+  s'.online = s.online ∧ s'.birthed = s.birthed ∧ s'.node = s.node ∧ s'.calls = s.calls ∧
+  s'.oneshots = s.oneshots
+
+def neutralL (l : LoopPc) : Prop := l ≠ .start ∧ awaitOf l = none ∧ pendOf l = none
+
+/-- what a step of the event-loop task does to `loop`, `cs`, `nextOneshot` -/
+inductive LTv (l : LoopPc) (cs : Option CS) (n : Nat) : LoopPc → Option CS → Nat → Prop
+  | same (l') : neutralL l' → LTv l cs n l' cs n
+  | put (l' cs') : neutralL l' → cs = none → (cs' = some .online ∨ cs' = some .stopped) →
+      LTv l cs n l' cs' n
+  | freshA (l') : cs = none → l' ≠ .start → awaitOf l' = some n → pendOf l' = none →
+      LTv l cs n l' (some (.offline n)) (n + 1)
+  | freshP (l') : l' ≠ .start → awaitOf l' = none → pendOf l' = some n → LTv l cs n l' cs (n + 1)
+  | send (o : Nat) (l') : pendOf l = some o → cs = none → l' ≠ .start → awaitOf l' = some o →
+      pendOf l' = none → LTv l cs n l' (some (.offline o)) n
+
+def LT (s s' : St) : Prop := LTv s.loop s.cs s.nextOneshot s'.loop s'.cs s'.nextOneshot
+
+/-- the observations of an event-loop step: a will only at the start or when the node has replied -/
+def LoopObs (s : St) (o : List Obs) : Prop :=
+  (∀ x ∈ o, quietO x = true) ∨
+  (∃ bd, o = [.will bd] ∧
+    (s.loop = .start ∨ ∃ o', awaitOf s.loop = some o' ∧ reply? s o' = some (some bd)))
+
+syntax "lt_tac" : tactic
+macro_rules
+  | `(tactic| lt_tac) => `(tactic| (simp only [LT]; first
+      | (refine LTv.same _ ?_ <;> simp [neutralL, awaitOf, pendOf, *]; done)
+      | (refine LTv.put _ _ ?_ ?_ ?_ <;> simp [neutralL, awaitOf, pendOf, *]; done)
+      | (refine LTv.freshA _ ?_ ?_ ?_ ?_ <;> simp [neutralL, awaitOf, pendOf, *]; done)
+      | (refine LTv.freshP _ ?_ ?_ ?_ <;> simp [neutralL, awaitOf, pendOf, *]; done)
+      | (refine LTv.send _ _ ?_ ?_ ?_ ?_ ?_ <;> simp [neutralL, awaitOf, pendOf, *]; done)))
+
+theorem loopHandle_sum (s : St) (e : Ev) :
+    KeepL s (loopHandle s e) ∧ LT s (loopHandle s e) := by
+  unfold loopHandle
+  simp only [newOneshot]
+  repeat' split
+  all_goals refine ⟨⟨rfl, rfl, rfl, rfl, rfl⟩, ?_⟩
+  all_goals lt_tac
+
+theorem loopHandle_sum' (s : St) (rest : List Ev) (e : Ev) :
+    KeepL s (loopHandle { s with inbox := rest } e) ∧ LT s (loopHandle { s with inbox := rest } e) :=
+  loopHandle_sum { s with inbox := rest } e
+
+theorem stepLoop_sum (s : St) (r : St × List Obs) (h : r ∈ stepLoop s) :
+    KeepL s r.1 ∧ LT s r.1 ∧ LoopObs s r.2 := by
+  unfold stepLoop at h
+  simp only [newOneshot] at h
+  repeat' split at h
+  all_goals try simp at h
+  all_goals try (rcases h with h | h)
+  all_goals try subst h
+  all_goals try (refine ⟨(loopHandle_sum' _ _ _).1, (loopHandle_sum' _ _ _).2, ?_⟩)
+  all_goals try refine ⟨⟨rfl, rfl, rfl, rfl, rfl⟩, ?_, ?_⟩
+  all_goals try lt_tac
+  all_goals try (simp [LoopObs, quietO, awaitOf, *]; done)
+  case h_2.refine_1 =>
+    rename_i a _ _ _ _ hne
+    cases a
+    · lt_tac
+    · simp at hne
+    · lt_tac
+
+theorem stepLoopTimeout_sum (s : St) (r : St × List Obs) (h : r ∈ stepLoopTimeout s) :
+    KeepL s r.1 ∧ LT s r.1 ∧ r.2 = [] := by
+  unfold stepLoopTimeout at h
+  simp only [newOneshot] at h
+  repeat' split at h
+  all_goals try simp at h
+  all_goals try subst h
+  all_goals try refine ⟨⟨rfl, rfl, rfl, rfl, rfl⟩, ?_, rfl⟩
+  all_goals try lt_tac
+
+/-- the state invariant is preserved by any step with the footprint of an event-loop step -/
+theorem SInv_of_LT (s s' : St) (hi : SInv s) (hk : KeepL s s') (ht : LT s s') : SInv s' := by
+  obtain ⟨k1, k2, k3, k4, k5⟩ := hk
+  obtain ⟨bo, busy, cg, wn, w, q0, q1, f1, f2, f3⟩ := hi
+  have hr : ∀ o, reply? s' o = reply? s o := by intro o; simp [reply?, k5]
+  have hfresh : reply? s s.nextOneshot = none :=
+    reply_none_of_fresh s.oneshots s.nextOneshot s.nextOneshot f1 (Nat.le_refl _)
+  unfold LT at ht
+  generalize hl' : s'.loop = l' at ht
+  generalize hc' : s'.cs = c' at ht
+  generalize hn' : s'.nextOneshot = n' at ht
+  cases ht <;> constructor <;> simp only [k1, k2, k3, k4, k5, hr, hl', hc', hn'] <;> try assumption
+  all_goals grind [neutralL]
+
+/-! ### device tasks, user tasks, stimuli -/
+
+def KeepD (s s' : St) : Prop :=
+  s'.online = s.online ∧ s'.birthed = s.birthed ∧ s'.node = s.node ∧ s'.loop = s.loop ∧
+  s'.cs = s.cs ∧ s'.oneshots = s.oneshots ∧ s'.nextOneshot = s.nextOneshot
+
+/-- what a device or user step does to the call log, and what it emits -/
+def DT (s s' : St) (o : List Obs) : Prop :=
+  (s'.calls = s.calls ∧ ∀ x ∈ o, quietO x = true) ∨
+  (∃ (c : Call) (dec : Dec) (pre post : List Obs), s'.calls = s.calls ++ [c] ∧
+     o = pre ++ Obs.call s.calls.length c.kind c.dev c.seq c.bd c.isTry dec :: post ∧
+     (∀ x ∈ pre, quietO x = true) ∧ (∀ x ∈ post, quietO x = true) ∧
+     (c.kind.bearsSeq = true →
+        s.online = true ∧ s.birthed = true ∧ c.gOnline = true ∧ c.gBirthed = true) ∧
+     (c.kind.bearsSeq = true ∨ c.kind = .ndeath ∨ c.kind = .disconnect))
+
+def DS (s s' : St) (o : List Obs) : Prop := KeepD s s' ∧ DT s s' o
+
+theorem nextSeqIn_ok (s s1 : St) (req : Option Nat) (n : Nat) (h : nextSeqIn s req = .ok (s1, n)) :
+    s.online = true ∧ s.birthed = true ∧ s1 = { s with seq := n } := by
+  unfold nextSeqIn at h
+  repeat' split at h
+  all_goals try (simp at h; done)
+  all_goals
+    simp only [Except.ok.injEq, Prod.mk.injEq] at h
+    obtain ⟨rfl, rfl⟩ := h
+    simp_all
+
+theorem DS_devBirth (s : St) (x : Dev) (bt : BT) (req : Option Nat) (dec : Dec) :
+    DS s (devBirth s x bt req dec).1 (devBirth s x bt req dec).2 := by
+  unfold devBirth
+  split
+  · exact ⟨⟨rfl, rfl, rfl, rfl, rfl, rfl, rfl⟩, Or.inl ⟨rfl, by simp⟩⟩
+  split
+  · exact ⟨⟨rfl, rfl, rfl, rfl, rfl, rfl, rfl⟩, Or.inl ⟨rfl, by simp⟩⟩
+  split
+  · exact ⟨⟨rfl, rfl, rfl, rfl, rfl, rfl, rfl⟩, Or.inl ⟨rfl, by simp⟩⟩
+  rename_i s1 n hn
+  obtain ⟨h1, h2, rfl⟩ := nextSeqIn_ok _ _ _ _ hn
+  simp only [handOver]
+  split
+  all_goals
+    refine ⟨⟨rfl, rfl, rfl, rfl, rfl, rfl, rfl⟩, Or.inr ⟨_, _, [.bDev _], [], rfl, rfl, ?_, ?_, ?_, ?_⟩⟩
+  all_goals simp [quietO, CK.bearsSeq, *]
+
+theorem DS_devBirth' (s : St) (dv : List Dev) (x : Dev) (bt : BT) (req : Option Nat) (dec : Dec) :
+    DS s (devBirth { s with devs := dv } x bt req dec).1 (devBirth { s with devs := dv } x bt req dec).2 :=
+  DS_devBirth { s with devs := dv } x bt req dec
+
+theorem DS_devDeath (s : St) (x : Dev) (pub thenDone : Bool) (dec : Dec) :
+    DS s (devDeath s x pub thenDone dec).1 (devDeath s x pub thenDone dec).2 := by
+  unfold devDeath
+  dsimp only
+  repeat' split
+  all_goals first
+    | exact ⟨⟨rfl, rfl, rfl, rfl, rfl, rfl, rfl⟩, Or.inl ⟨rfl, by simp⟩⟩
+    | (obtain ⟨h1, h2, rfl⟩ := nextSeqIn_ok _ _ _ _ ‹nextSeqIn _ _ = Except.ok _›
+       simp only [handOver]
+       refine ⟨⟨rfl, rfl, rfl, rfl, rfl, rfl, rfl⟩, Or.inr ⟨_, _, [], [], rfl, rfl, ?_, ?_, ?_, ?_⟩⟩ <;>
+          simp [quietO, CK.bearsSeq, *])
+
+theorem DS_devDeath' (s : St) (dv : List Dev) (x : Dev) (pub thenDone : Bool) (dec : Dec) :
+    DS s (devDeath { s with devs := dv } x pub thenDone dec).1
+      (devDeath { s with devs := dv } x pub thenDone dec).2 :=
+  DS_devDeath { s with devs := dv } x pub thenDone dec
+
+theorem stepDev_sum (s : St) (u : Nat) (dec : Dec) (r : St × List Obs) (h : r ∈ stepDev s u dec) :
+    DS s r.1 r.2 := by
+  unfold stepDev at h
+  repeat' split at h
+  all_goals try simp at h
+  all_goals try subst h
+  all_goals first
+    | exact DS_devBirth' _ _ _ _ _ _
+    | exact DS_devDeath' _ _ _ _ _ _
+    | exact ⟨⟨rfl, rfl, rfl, rfl, rfl, rfl, rfl⟩, Or.inl ⟨rfl, by simp [quietO]⟩⟩
+    | skip
+
+theorem Except_map_ok {ε α β : Type} (f : α → β) (x : Except ε α) (b : β) (h : x.map f = .ok b) :
+    ∃ a, x = .ok a ∧ f a = b := by
+  cases x with
+  | error e => simp [Except.map] at h
+  | ok a => exact ⟨a, rfl, by simpa [Except.map] using h⟩
+
+theorem stepUser_sum (s : St) (j : Nat) (dec : Dec) (r : St × List Obs) (h : r ∈ stepUser s j dec) :
+    DS s r.1 r.2 := by
+  unfold stepUser at h
+  dsimp only [nextSeq] at h
+  split at h
+  · simp at h
+  split at h
+  · rename_i t isTry n hk hp
+    split at h
+    · simp at h; subst h
+      exact ⟨⟨rfl, rfl, rfl, rfl, rfl, rfl, rfl⟩, Or.inl ⟨rfl, by simp [quietO]⟩⟩
+    · split at h
+      · simp at h; subst h
+        exact ⟨⟨rfl, rfl, rfl, rfl, rfl, rfl, rfl⟩, Or.inl ⟨rfl, by simp [quietO]⟩⟩
+      · rename_i s1 k fl hg
+        have hs : s.online = true ∧ s.birthed = true ∧ s1 = { s with seq := k } := by
+          cases t with
+          | node =>
+            obtain ⟨a, ha, hb⟩ := Except_map_ok _ _ _ hg
+            obtain ⟨a1, a2⟩ := a
+            obtain ⟨h1, h2, h3⟩ := nextSeqIn_ok _ _ _ _ ha
+            simp at hb
+            obtain ⟨rfl, rfl, _⟩ := hb
+            exact ⟨h1, h2, h3⟩
+          | dev d =>
+            dsimp only at hg
+            split at hg
+            · split at hg
+              · simp at hg
+              · obtain ⟨a, ha, hb⟩ := Except_map_ok _ _ _ hg
+                obtain ⟨a1, a2⟩ := a
+                obtain ⟨h1, h2, h3⟩ := nextSeqIn_ok _ _ _ _ ha
+                simp at hb
+                obtain ⟨rfl, rfl, _⟩ := hb
+                exact ⟨h1, h2, h3⟩
+            · simp at hg
+        obtain ⟨h1, h2, rfl⟩ := hs
+        simp only [handOver] at h
+        repeat' split at h
+        all_goals simp at h
+        all_goals subst h
+        all_goals
+          refine ⟨⟨rfl, rfl, rfl, rfl, rfl, rfl, rfl⟩, Or.inr ⟨_, _, [], _, rfl, rfl, ?_, ?_, ?_, ?_⟩⟩
+        all_goals simp [quietO, CK.bearsSeq, *]
+  all_goals try simp only [handOver] at h
+  all_goals repeat' split at h
+  all_goals try simp at h
+  all_goals try subst h
+  all_goals first
+    | exact ⟨⟨rfl, rfl, rfl, rfl, rfl, rfl, rfl⟩, Or.inl ⟨rfl, by simp [quietO]⟩⟩
+    | (refine ⟨⟨rfl, rfl, rfl, rfl, rfl, rfl, rfl⟩, Or.inr ⟨_, _, [], _, rfl, rfl, ?_, ?_, ?_, ?_⟩⟩ <;>
+        simp [quietO, CK.bearsSeq])
+
+/-- what a stimulus does to the call log, and what it emits -/
+def ST (s s' : St) (o : List Obs) : Prop :=
+  (s'.calls = s.calls ∧ o = []) ∨
+  (∃ id ok c, s.calls[id]? = some c ∧ c.res = none ∧
+     s'.calls = s.calls.set id { c with res := some ok } ∧ o = [.resolved id ok])
+
+theorem applyStim_sum (s : St) (x : Stim) :
+    KeepD s (applyStim s x).1 ∧ ST s (applyStim s x).1 (applyStim s x).2 := by
+  unfold applyStim
+  repeat' split
+  all_goals first
+    | exact ⟨⟨rfl, rfl, rfl, rfl, rfl, rfl, rfl⟩, Or.inl ⟨rfl, rfl⟩⟩
+    | exact ⟨⟨rfl, rfl, rfl, rfl, rfl, rfl, rfl⟩,
+        Or.inr ⟨_, _, _, ‹_ = some _›, by simpa using ‹Option.isNone _ = true›, rfl, rfl⟩⟩
+
+/-! ### the node task -/
+
+/-- what a step of the node task does (`loop` and `nextOneshot` are never touched) -/
+inductive NT (s s' : St) (o : List Obs) : Prop
+  | quiet : quietN s.node = true → quietN s'.node = true → (s'.cs = s.cs ∨ s'.cs = none) →
+      s'.online = s.online → s'.birthed = s.birthed → s'.oneshots = s.oneshots →
+      s'.calls = s.calls → (∀ x ∈ o, quietO x = true) → NT s s' o
+  | sub (c : Call) (dec : Dec) : s.node = .idle → s.cs = some .online → s.online = false →
+      s'.cs = none → s'.online = true → s'.birthed = s.birthed → s'.oneshots = s.oneshots →
+      s'.calls = s.calls ++ [c] → c.kind = .sub →
+      o = [.call s.calls.length .sub c.dev c.seq c.bd c.isTry dec] →
+      ((∃ ok, s'.node = .subDone ok) ∨ (∃ id, s'.node = .waitSub id)) → NT s s' o
+  | offNo (o1 : Nat) : s.node = .idle → s.cs = some (.offline o1) → s.online = false →
+      s'.cs = none → s'.oneshots = s.oneshots ++ [(o1, none)] → s'.online = s.online →
+      s'.birthed = s.birthed → s'.node = s.node → s'.calls = s.calls → o = [] → NT s s' o
+  | offYes (o1 bd : Nat) : s.node = .idle → s.cs = some (.offline o1) → s.online = true →
+      s'.cs = none → s'.oneshots = s.oneshots ++ [(o1, some bd)] → s'.online = false →
+      s'.birthed = false → s'.node = .idle → s'.calls = s.calls → o = [] → NT s s' o
+  | rebirth (fc : Option Nat) : quietN s.node = true → s.birthed = true →
+      s'.node = .birthStart .rebirth fc → s'.cs = s.cs → s'.online = s.online →
+      s'.birthed = s.birthed → s'.oneshots = s.oneshots → s'.calls = s.calls → o = [] → NT s s' o
+  | pre : ((∃ id, s.node = .waitSub id) ∨ (∃ ok, s.node = .subDone ok)) →
+      ((∃ ok, s'.node = .subDone ok) ∨ s'.node = .birthStart .birth none ∨ s'.node = .idle) →
+      s'.cs = s.cs → s'.online = s.online → s'.birthed = s.birthed → s'.oneshots = s.oneshots →
+      s'.calls = s.calls → o = [] → NT s s' o
+  | nb (bt : BT) (fc : Option Nat) (c : Call) (dec : Dec) : s.node = .birthStart bt fc →
+      s'.birthed = false → s'.calls = s.calls ++ [c] → c.kind = .nbirth →
+      o = [.bNode, .call s.calls.length .nbirth c.dev c.seq c.bd c.isTry dec] →
+      ((dec = .acc ∧ s'.node = .nbDone true bt fc) ∨ (dec = .rej ∧ s'.node = .nbDone false bt fc) ∨
+       (dec = .park ∧ s'.node = .waitNb s.calls.length bt fc ∧ c.res = none)) →
+      s'.cs = s.cs → s'.online = s.online → s'.oneshots = s.oneshots → NT s s' o
+  | nbRes (id : Nat) (ok : Bool) (bt : BT) (fc : Option Nat) : s.node = .waitNb id bt fc →
+      callRes s id = some ok → s'.node = .nbDone ok bt fc →
+      s'.cs = s.cs → s'.online = s.online → s'.birthed = s.birthed → s'.oneshots = s.oneshots →
+      s'.calls = s.calls → o = [] → NT s s' o
+  | nbFin (ok : Bool) (bt : BT) (fc : Option Nat) : s.node = .nbDone ok bt fc → s'.node = .idle →
+      s'.birthed = (if ok then true else s.birthed) →
+      s'.cs = s.cs → s'.online = s.online → s'.oneshots = s.oneshots →
+      s'.calls = s.calls → o = [] → NT s s' o
+
+theorem stepNode_sum (s : St) (dec : Dec) (r : St × List Obs) (h : r ∈ stepNode s dec) :
+    r.1.loop = s.loop ∧ r.1.nextOneshot = s.nextOneshot ∧ NT s r.1 r.2 := by
+  unfold stepNode at h
+  cases dec
+  all_goals simp [nodeBirthStart, handOver, callRes] at h
+  all_goals repeat' split at h
+  all_goals try simp at h
+  all_goals try subst h
+  all_goals try refine ⟨rfl, rfl, ?_⟩
+  all_goals first
+    | (refine NT.quiet ?_ ?_ ?_ ?_ ?_ ?_ ?_ ?_ <;> simp [quietN, quietO, *]; done)
+    | (refine NT.sub _ _ ?_ ?_ ?_ rfl rfl rfl rfl rfl rfl rfl ?_ <;> simp [*]; done)
+    | (refine NT.offNo _ ?_ ?_ ?_ rfl rfl rfl rfl ?_ rfl rfl <;> simp [*]; done)
+    | (refine NT.offYes _ _ ?_ ?_ ?_ rfl rfl rfl rfl ?_ rfl rfl <;> simp [*]; done)
+    | (refine NT.rebirth _ ?_ ?_ rfl ?_ rfl rfl rfl rfl rfl <;> simp [quietN, *]; done)
+    | (refine NT.pre ?_ ?_ rfl rfl rfl rfl rfl rfl <;> simp [*]; done)
+    | (refine NT.nb _ _ _ _ ‹_› rfl rfl rfl rfl ?_ rfl rfl rfl <;> simp [*]; done)
+    | (refine NT.nbRes _ _ _ _ ‹_› ?_ rfl rfl rfl rfl rfl rfl rfl <;> simp [callRes, *]; done)
+    | (refine NT.nbFin _ _ _ ‹_› rfl ?_ rfl rfl rfl rfl rfl <;> simp [*]; done)
+    | skip
+
+/-! ### the state invariant is inductive -/
+
+/-! ### the state invariant is inductive -/
+
+theorem SInv_of_DS (s s' : St) (o : List Obs) (hi : SInv s) (h : DS s s' o) : SInv s' := by
+  obtain ⟨⟨k1, k2, k3, k4, k5, k6, k7⟩, ht⟩ := h
+  obtain ⟨bo, busy, cg, wn, w, q0, q1, f1, f2, f3⟩ := hi
+  have hr : ∀ o, reply? s' o = reply? s o := by intro o; simp [reply?, k6]
+  constructor
+  all_goals try simp only [k1, k2, k3, k4, k5, k6, k7, hr]
+  all_goals try assumption
+  · rcases ht with ⟨hc, _⟩ | ⟨c, dec, pre, post, hc, _, _, _, hb, _⟩
+    · rw [hc]; exact cg
+    · rw [hc]; intro c' hc' hk
+      rcases List.mem_append.1 hc' with h | h
+      · exact cg c' h hk
+      · simp at h; subst h; exact ⟨(hb hk).2.2.1, (hb hk).2.2.2⟩
+  · intro id bt fc hn
+    refine ⟨(wn id bt fc hn).1, ?_⟩
+    have := (wn id bt fc hn).2
+    rcases ht with ⟨hc, _⟩ | ⟨c, dec, pre, post, hc, _⟩
+    · rw [hc]; exact this
+    · rw [hc]; simp; omega
+
+theorem SInv_of_ST (s s' : St) (o : List Obs) (hi : SInv s) (hk : KeepD s s') (ht : ST s s' o) :
+    SInv s' := by
+  obtain ⟨k1, k2, k3, k4, k5, k6, k7⟩ := hk
+  obtain ⟨bo, busy, cg, wn, w, q0, q1, f1, f2, f3⟩ := hi
+  have hr : ∀ o, reply? s' o = reply? s o := by intro o; simp [reply?, k6]
+  constructor
+  all_goals try simp only [k1, k2, k3, k4, k5, k6, k7, hr]
+  all_goals try assumption
+  · rcases ht with ⟨hc, _⟩ | ⟨id, ok, c, hg, hres, hc, _⟩
+    · rw [hc]; exact cg
+    · rw [hc]; intro c' hc' hk
+      rcases List.mem_or_eq_of_mem_set hc' with h | h
+      · exact cg c' h hk
+      · subst h; exact cg c (List.mem_of_getElem? hg) hk
+  · intro id bt fc hn
+    refine ⟨(wn id bt fc hn).1, ?_⟩
+    have := (wn id bt fc hn).2
+    rcases ht with ⟨hc, _⟩ | ⟨id, ok, c, hg, hres, hc, _⟩
+    · rw [hc]; exact this
+    · rw [hc]; simpa using this
+
+
+theorem reply_append (s s' : St) (o1 : Nat) (x : Option Nat) (o : Nat)
+    (h : s'.oneshots = s.oneshots ++ [(o1, x)]) :
+    reply? s' o = (match reply? s o with
+      | some r => some r
+      | none => if o1 = o then some x else none) := by
+  simp only [reply?, h, List.find?_append]
+  cases hf : List.find? (fun x => x.fst == o) s.oneshots with
+  | some p => simp
+  | none =>
+    by_cases ho : o1 = o <;> simp [ho]
+
+theorem SInv_of_NT (s s' : St) (o : List Obs) (hi : SInv s) (hl : s'.loop = s.loop)
+    (hn : s'.nextOneshot = s.nextOneshot) (ht : NT s s' o) : SInv s' := by
+  obtain ⟨bo, busy, cg, wn, w, q0, q1, f1, f2, f3⟩ := hi
+  have hfresh : reply? s s.nextOneshot = none :=
+    reply_none_of_fresh s.oneshots s.nextOneshot s.nextOneshot f1 (Nat.le_refl _)
+  cases ht with
+  | quiet a1 a2 a3 a4 a5 a6 a7 a8 =>
+    have hr : ∀ o, reply? s' o = reply? s o := by intro o; simp [reply?, a6]
+    constructor <;> simp only [hl, hn, hr, a4, a5, a6, a7] <;> try assumption
+    all_goals grind [quietN]
+  | sub c dec a1 a2 a3 a4 a5 a6 a7 a8 a9 a10 a11 =>
+    have hr : ∀ o, reply? s' o = reply? s o := by intro o; simp [reply?, a7]
+    constructor <;> simp only [hl, hn, hr, a4, a5, a6, a7, a8] <;> try assumption
+    all_goals grind [quietN, CK.bearsSeq]
+  | offNo o1 a1 a2 a3 a4 a5 a6 a7 a8 a9 a10 =>
+    have hr := fun o => reply_append s s' o1 none o a5
+    constructor <;> simp only [hl, hn, hr, a4, a5, a6, a7, a8, a9] <;> try assumption
+    all_goals grind [quietN]
+  | offYes o1 bd a1 a2 a3 a4 a5 a6 a7 a8 a9 a10 =>
+    have hr := fun o => reply_append s s' o1 (some bd) o a5
+    constructor <;> simp only [hl, hn, hr, a4, a5, a6, a7, a8, a9] <;> try assumption
+    all_goals grind [quietN]
+  | rebirth fc a1 a2 a3 a4 a5 a6 a7 a8 a9 =>
+    have hr : ∀ o, reply? s' o = reply? s o := by intro o; simp [reply?, a7]
+    constructor <;> simp only [hl, hn, hr, a3, a4, a5, a6, a7, a8] <;> try assumption
+    all_goals grind [quietN]
+  | pre a1 a2 a3 a4 a5 a6 a7 a8 =>
+    have hr : ∀ o, reply? s' o = reply? s o := by intro o; simp [reply?, a6]
+    constructor <;> simp only [hl, hn, hr, a3, a4, a5, a6, a7] <;> try assumption
+    all_goals grind [quietN]
+  | nb bt fc c dec a1 a2 a3 a4 a5 a6 a7 a8 a9 =>
+    have hr : ∀ o, reply? s' o = reply? s o := by intro o; simp [reply?, a9]
+    constructor <;> simp only [hl, hn, hr, a2, a3, a7, a8, a9] <;> try assumption
+    all_goals grind [quietN, CK.bearsSeq]
+  | nbRes id ok bt fc a1 a2 a3 a4 a5 a6 a7 a8 a9 =>
+    have hr : ∀ o, reply? s' o = reply? s o := by intro o; simp [reply?, a7]
+    constructor <;> simp only [hl, hn, hr, a3, a4, a5, a6, a7, a8] <;> try assumption
+    all_goals grind [quietN]
+  | nbFin ok bt fc a1 a2 a3 a4 a5 a6 a7 a8 =>
+    have hr : ∀ o, reply? s' o = reply? s o := by intro o; simp [reply?, a6]
+    constructor <;> simp only [hl, hn, hr, a2, a3, a4, a5, a6, a7] <;> try assumption
+    all_goals grind [quietN]
+/-! ### executions -/
+
+/-- one step of an execution, summarised -/
+inductive Step (s s' : St) (o : List Obs) : Prop
+  | loop : KeepL s s' → LT s s' → LoopObs s o → Step s s' o
+  | node : s'.loop = s.loop → s'.nextOneshot = s.nextOneshot → NT s s' o → Step s s' o
+  | data : DS s s' o → Step s s' o
+  | stim : KeepD s s' → ST s s' o → Step s s' o
+
+theorem runAct_Step (s s' : St) (a : Act) (o : List Obs) (h : runAct s a = some (s', o)) :
+    Step s s' o := by
+  cases a with
+  | stim x =>
+    simp only [runAct, Option.some.injEq] at h
+    have := applyStim_sum s x
+    rw [h] at this
+    exact .stim this.1 this.2
+  | task t dec k =>
+    have hm := List.mem_of_getElem? h
+    cases t with
+    | loop => have := stepLoop_sum s _ hm; exact .loop this.1 this.2.1 this.2.2
+    | loopTimeout =>
+      have := stepLoopTimeout_sum s _ hm
+      have h3 : o = [] := this.2.2
+      exact .loop this.1 this.2.1 (Or.inl (by rw [h3]; simp))
+    | node => have := stepNode_sum s dec _ hm; exact .node this.1 this.2.1 this.2.2
+    | dev d => exact .data (stepDev_sum s d dec _ hm)
+    | user j => exact .data (stepUser_sum s j dec _ hm)
+
+theorem SInv_Step (s s' : St) (o : List Obs) (hi : SInv s) (h : Step s s' o) : SInv s' := by
+  cases h with
+  | loop a b c => exact SInv_of_LT s s' hi a b
+  | node a b c => exact SInv_of_NT s s' o hi a b c
+  | data a => exact SInv_of_DS s s' o hi a
+  | stim a b => exact SInv_of_ST s s' o hi a b
+
+theorem runActs_cons (s : St) (a : Act) (as : List Act) (s2 : St) (tr : List Obs)
+    (h : runActs s (a :: as) = some (s2, tr)) :
+    ∃ s1 o1 o2, runAct s a = some (s1, o1) ∧ runActs s1 as = some (s2, o2) ∧ tr = o1 ++ o2 := by
+  simp only [runActs] at h
+  split at h
+  · simp at h
+  · rename_i s1 o1 h1
+    split at h
+    · simp at h
+    · rename_i s2' o2 h2
+      simp at h
+      exact ⟨s1, o1, o2, h1, by rw [h2, h.1], h.2.symm⟩
+
+theorem SInv_runActs (acts : List Act) : ∀ (s s' : St) (tr : List Obs), SInv s →
+    runActs s acts = some (s', tr) → SInv s' := by
+  induction acts with
+  | nil => intro s s' tr hi h; simp [runActs] at h; rw [← h.1]; exact hi
+  | cons a as ih =>
+    intro s s' tr hi h
+    obtain ⟨s1, o1, o2, h1, h2, _⟩ := runActs_cons s a as s' tr h
+    exact ih s1 s' o2 (SInv_Step s s1 o1 hi (runAct_Step s s1 a o1 h1)) h2
+
+/-! ### the gate scanner -/
+
+def gateChk (live : Bool) : Obs → Bool
+  | .call _ k _ _ _ _ _ => if k == .sub || k == .nbirth then true else if k.bearsSeq then live else true
+  | _ => true
+
+def gateNext (live : Bool) (pend : Option Nat) : Obs → Bool × Option Nat
+  | .call id k _ _ _ _ dec =>
+    if k == .sub then (false, none)
+    else if k == .nbirth then
+      (match dec with
+       | .acc => (true, none)
+       | .rej => (false, none)
+       | .park => (false, some id))
+    else (live, pend)
+  | .bNode => (false, none)
+  | .resolved id ok => if pend == some id then (ok, none) else (live, pend)
+  | .will _ => (false, none)
+  | _ => (live, pend)
+
+def gateAfter (live : Bool) (pend : Option Nat) : List Obs → Bool × Option Nat
+  | [] => (live, pend)
+  | o :: t => gateAfter (gateNext live pend o).1 (gateNext live pend o).2 t
+
+theorem gateOk_cons (live : Bool) (pend : Option Nat) (o : Obs) (t : List Obs) :
+    gateOk live pend (o :: t) =
+      (gateChk live o && gateOk (gateNext live pend o).1 (gateNext live pend o).2 t) := by
+  cases o with
+  | call id k d sq bd it dec =>
+    cases k <;> cases dec <;> simp [gateOk, gateChk, gateNext, CK.bearsSeq]
+  | resolved id ok =>
+    by_cases h : pend = some id <;> simp [gateOk, gateChk, gateNext, h]
+  | _ => simp [gateOk, gateChk, gateNext]
+
+theorem gateOk_append (t1 t2 : List Obs) : ∀ (live : Bool) (pend : Option Nat),
+    gateOk live pend (t1 ++ t2) =
+      (gateOk live pend t1 && gateOk (gateAfter live pend t1).1 (gateAfter live pend t1).2 t2) := by
+  induction t1 with
+  | nil => intro live pend; simp [gateOk, gateAfter]
+  | cons o t ih =>
+    intro live pend
+    simp only [List.cons_append, gateOk_cons, gateAfter, ih, Bool.and_assoc]
+
+theorem gate_quiet (o : List Obs) (h : ∀ x ∈ o, quietO x = true) : ∀ (live : Bool) (pend : Option Nat),
+    gateOk live pend o = true ∧ gateAfter live pend o = (live, pend) := by
+  induction o with
+  | nil => intro live pend; simp [gateOk, gateAfter]
+  | cons x t ih =>
+    intro live pend
+    have hx := h x (by simp)
+    have ht := ih (fun y hy => h y (by simp [hy]))
+    cases x <;> simp [quietO] at hx <;> simp [gateOk_cons, gateAfter, gateChk, gateNext, ht]
+
+theorem gateAfter_append (t1 t2 : List Obs) : ∀ (live : Bool) (pend : Option Nat),
+    gateAfter live pend (t1 ++ t2) =
+      gateAfter (gateAfter live pend t1).1 (gateAfter live pend t1).2 t2 := by
+  induction t1 with
+  | nil => intro live pend; rfl
+  | cons o t ih => intro live pend; simp only [List.cons_append, gateAfter, ih]
+
+theorem gate_call (pre post : List Obs) (id : Nat) (k : CK) (d sq bd : Option Nat) (it : Bool)
+    (dec : Dec) (hpre : ∀ x ∈ pre, quietO x = true) (hpost : ∀ x ∈ post, quietO x = true)
+    (hk : k.bearsSeq = true ∨ k = .ndeath ∨ k = .disconnect) (live : Bool) (pend : Option Nat) :
+    gateOk live pend (pre ++ Obs.call id k d sq bd it dec :: post) = (if k.bearsSeq then live else true) ∧
+    gateAfter live pend (pre ++ Obs.call id k d sq bd it dec :: post) = (live, pend) := by
+  have h1 := gate_quiet pre hpre live pend
+  have h2 := gate_quiet post hpost live pend
+  have hn : gateNext live pend (Obs.call id k d sq bd it dec) = (live, pend) := by
+    rcases hk with hk | hk | hk <;> cases k <;> simp_all [gateNext, CK.bearsSeq]
+  have hc : gateChk live (Obs.call id k d sq bd it dec) = (if k.bearsSeq then live else true) := by
+    rcases hk with hk | hk | hk <;> cases k <;> simp_all [gateChk, CK.bearsSeq]
+  constructor
+  · rw [gateOk_append, h1.1, h1.2, gateOk_cons, hn, hc, h2.1]; simp
+  · rw [gateAfter_append, h1.2]; simp only [gateAfter, hn]; exact h2.2
+
+theorem callRes_calls (s s' : St) (id : Nat) (h : s'.calls = s.calls) : callRes s' id = callRes s id := by
+  simp [callRes, h]
+
+theorem callRes_append_lt (s s' : St) (c : Call) (id : Nat) (h : s'.calls = s.calls ++ [c])
+    (hl : id < s.calls.length) : callRes s' id = callRes s id := by
+  simp [callRes, h, List.getElem?_append_left hl]
+
+theorem callRes_append_len (s s' : St) (c : Call) (h : s'.calls = s.calls ++ [c]) :
+    callRes s' s.calls.length = c.res := by
+  simp [callRes, h]
+
+theorem callRes_lt (s : St) (id : Nat) (r : Bool) (h : callRes s id = some r) : id < s.calls.length := by
+  unfold callRes at h
+  cases hg : s.calls[id]? with
+  | none => simp [hg] at h
+  | some c => exact (List.getElem?_eq_some_iff.1 hg).1
+
+theorem callRes_set_ne (s s' : St) (c : Call) (id id2 : Nat) (h : s'.calls = s.calls.set id c)
+    (hne : id2 ≠ id) : callRes s' id2 = callRes s id2 := by
+  simp [callRes, h, List.getElem?_set_ne (Ne.symm hne)]
+
+theorem callRes_set_eq (s s' : St) (c c0 : Call) (id : Nat) (h : s'.calls = s.calls.set id c)
+    (hg : s.calls[id]? = some c0) : callRes s' id = c.res := by
+  have hl := (List.getElem?_eq_some_iff.1 hg).1
+  simp [callRes, h, hl]
+
+structure GInv (s : St) (live : Bool) (pend : Option Nat) : Prop where
+  a : s.birthed = true → live = true
+  b : ∀ bt fc, s.node = .nbDone true bt fc → live = true
+  c : ∀ id bt fc, s.node = .waitNb id bt fc →
+        (callRes s id = none → pend = some id) ∧ (callRes s id = some true → live = true)
+  d : ∀ id, pend = some id → (∃ bt fc, s.node = .waitNb id bt fc) ∧ callRes s id = none
+
+theorem gate_step (s s' : St) (o : List Obs) (live : Bool) (pend : Option Nat) (hs : SInv s)
+    (hg : GInv s live pend) (h : Step s s' o) :
+    gateOk live pend o = true ∧ GInv s' (gateAfter live pend o).1 (gateAfter live pend o).2 := by
+  obtain ⟨bo, busy, cg, wn, w, q0, q1, f1, f2, f3⟩ := hs
+  obtain ⟨ga, gb, gc, gd⟩ := hg
+  cases h with
+  | loop hk ht ho =>
+    obtain ⟨k1, k2, k3, k4, k5⟩ := hk
+    have hr := fun id => callRes_calls s s' id k4
+    rcases ho with ho | ⟨bd, rfl, ho⟩
+    · obtain ⟨h1, h2⟩ := gate_quiet o ho live pend
+      refine ⟨h1, ?_⟩
+      rw [h2]
+      constructor <;> simp only [k2, k3, hr] <;> assumption
+    · refine ⟨by simp [gateOk], ?_⟩
+      have hq : s.birthed = false ∧ quietN s.node = true := by
+        rcases ho with ho | ⟨o', h1, h2⟩
+        · exact q0 ho
+        · exact q1 o' bd h1 h2
+      simp only [gateAfter, gateNext]
+      constructor <;> simp only [k2, k3, hr] <;> grind [quietN]
+  | data hd =>
+    obtain ⟨⟨k1, k2, k3, k4, k5, k6, k7⟩, ht⟩ := hd
+    rcases ht with ⟨hc, ho⟩ | ⟨c, dec, pre, post, hc, rfl, hpre, hpost, hb, hk⟩
+    · have hr := fun id => callRes_calls s s' id hc
+      obtain ⟨h1, h2⟩ := gate_quiet o ho live pend
+      refine ⟨h1, ?_⟩
+      rw [h2]
+      constructor <;> simp only [k2, k3, hr] <;> assumption
+    · obtain ⟨h1, h2⟩ := gate_call pre post s.calls.length c.kind c.dev c.seq c.bd c.isTry dec hpre hpost
+        hk live pend
+      have hr : ∀ id bt fc, s.node = .waitNb id bt fc → callRes s' id = callRes s id :=
+        fun id bt fc hn => callRes_append_lt s s' c id hc (wn id bt fc hn).2
+      refine ⟨?_, ?_⟩
+      · rw [h1]; split
+        · rename_i hbs; exact ga (hb hbs).2.1
+        · rfl
+      · rw [h2]
+        constructor <;> simp only [k2, k3] <;> try assumption
+        · intro id bt fc hn; rw [hr id bt fc hn]; exact gc id bt fc hn
+        · intro id hp
+          obtain ⟨⟨bt, fc, hn⟩, h4⟩ := gd id hp
+          exact ⟨⟨bt, fc, hn⟩, by rw [hr id bt fc hn]; exact h4⟩
+  | stim hk ht =>
+    obtain ⟨k1, k2, k3, k4, k5, k6, k7⟩ := hk
+    rcases ht with ⟨hc, rfl⟩ | ⟨id, ok, c, hgc, hres, hc, rfl⟩
+    · have hr := fun id => callRes_calls s s' id hc
+      refine ⟨by simp [gateOk], ?_⟩
+      simp only [gateAfter]
+      constructor <;> simp only [k2, k3, hr] <;> assumption
+    · refine ⟨by simp [gateOk], ?_⟩
+      have hne := fun id2 (hne : id2 ≠ id) => callRes_set_ne s s' _ id id2 hc hne
+      have heq : callRes s' id = some ok := callRes_set_eq s s' _ c id hc hgc
+      have hold : callRes s id = none := by simp [callRes, hgc, hres]
+      simp only [gateAfter, gateNext]
+      by_cases hp : pend = some id
+      · simp only [hp, beq_self_eq_true, if_true]
+        obtain ⟨⟨bt, fc, hn⟩, _⟩ := gd id hp
+        constructor <;> simp only [k2, k3] <;> grind
+      · have hp' : (pend == some id) = false := by simpa using hp
+        simp only [hp', Bool.false_eq_true, if_false]
+        constructor <;> simp only [k2, k3] <;> try assumption
+        · intro id2 bt fc hn
+          by_cases h2 : id2 = id
+          · subst h2; exact absurd ((gc id2 bt fc hn).1 hold) hp
+          · rw [hne id2 h2]; exact gc id2 bt fc hn
+        · intro id2 hp2
+          have h2 : id2 ≠ id := by rintro rfl; exact hp hp2
+          rw [hne id2 h2]; exact gd id2 hp2
+  | node hl hn ht =>
+    cases ht with
+    | quiet a1 a2 a3 a4 a5 a6 a7 a8 =>
+      have hr := fun id => callRes_calls s s' id a7
+      obtain ⟨h1, h2⟩ := gate_quiet o a8 live pend
+      refine ⟨h1, ?_⟩
+      rw [h2]
+      constructor <;> (try simp only [a5, hr]) <;> grind [quietN]
+    | sub c dec a1 a2 a3 a4 a5 a6 a7 a8 a9 a10 a11 =>
+      subst a10
+      refine ⟨by simp [gateOk], ?_⟩
+      simp only [gateAfter, gateNext]
+      constructor <;> (try simp only [a6]) <;> grind
+    | offNo o1 a1 a2 a3 a4 a5 a6 a7 a8 a9 a10 =>
+      subst a10
+      have hr := fun id => callRes_calls s s' id a9
+      refine ⟨by simp [gateOk], ?_⟩
+      simp only [gateAfter]
+      constructor <;> (try simp only [a7, a8, hr]) <;> assumption
+    | offYes o1 bd a1 a2 a3 a4 a5 a6 a7 a8 a9 a10 =>
+      subst a10
+      have hr := fun id => callRes_calls s s' id a9
+      refine ⟨by simp [gateOk], ?_⟩
+      simp only [gateAfter]
+      constructor <;> (try simp only [a7, a8, hr]) <;> grind
+    | rebirth fc a1 a2 a3 a4 a5 a6 a7 a8 a9 =>
+      subst a9
+      have hr := fun id => callRes_calls s s' id a8
+      refine ⟨by simp [gateOk], ?_⟩
+      simp only [gateAfter]
+      constructor <;> (try simp only [a3, a6, hr]) <;> grind [quietN]
+    | pre a1 a2 a3 a4 a5 a6 a7 a8 =>
+      subst a8
+      have hr := fun id => callRes_calls s s' id a7
+      refine ⟨by simp [gateOk], ?_⟩
+      simp only [gateAfter]
+      constructor <;> (try simp only [a5, hr]) <;> grind
+    | nb bt fc c dec a1 a2 a3 a4 a5 a6 a7 a8 a9 =>
+      subst a5
+      have hlen := callRes_append_len s s' c a3
+      rcases a6 with ⟨rfl, h6⟩ | ⟨rfl, h6⟩ | ⟨rfl, h6, h7⟩
+      all_goals refine ⟨by simp [gateOk], ?_⟩
+      all_goals simp only [gateAfter, gateNext]
+      all_goals constructor <;> (try simp only [a2, h6]) <;> grind
+    | nbRes id ok bt fc a1 a2 a3 a4 a5 a6 a7 a8 a9 =>
+      subst a9
+      have hr := fun id => callRes_calls s s' id a8
+      refine ⟨by simp [gateOk], ?_⟩
+      simp only [gateAfter]
+      constructor <;> (try simp only [a3, a6, hr]) <;> grind
+    | nbFin ok bt fc a1 a2 a3 a4 a5 a6 a7 a8 =>
+      subst a8
+      have hr := fun id => callRes_calls s s' id a7
+      refine ⟨by simp [gateOk], ?_⟩
+      simp only [gateAfter]
+      constructor <;> (try simp only [a2, a3, hr]) <;> grind
+
+
+theorem GInv_init (cd : Nat) : GInv (init cd) false none := by
+  constructor <;> simp [init]
+
+theorem gate_runActs (acts : List Act) : ∀ (s s' : St) (live : Bool) (pend : Option Nat)
+    (tr : List Obs), SInv s → GInv s live pend → runActs s acts = some (s', tr) →
+    gateOk live pend tr = true := by
+  induction acts with
+  | nil => intro s s' live pend tr _ _ h; simp [runActs] at h; rw [h.2]; simp [gateOk]
+  | cons a as ih =>
+    intro s s' live pend tr hi hg h
+    obtain ⟨s1, o1, o2, h1, h2, rfl⟩ := runActs_cons s a as s' tr h
+    have hst := runAct_Step s s1 a o1 h1
+    obtain ⟨g1, g2⟩ := gate_step s s1 o1 live pend hi hg hst
+    rw [gateOk_append, g1, Bool.true_and]
+    exact ih s1 s' _ _ o2 (SInv_Step s s1 o1 hi hst) g2 h2
+
+/-! ### the first-after-subscribe scanner -/
+
+def fasChk (w : Bool) : Obs → Bool
+  | .call _ k _ _ _ _ _ =>
+    if k == .sub then true else if w then (k == .nbirth || k == .ndeath || k == .disconnect) else true
+  | _ => true
+
+def fasNext (w : Bool) : Obs → Bool
+  | .call _ k _ _ _ _ _ => if k == .sub then true else if w then (if k == .nbirth then false else true) else false
+  | _ => w
+
+def fasAfter (w : Bool) : List Obs → Bool
+  | [] => w
+  | o :: t => fasAfter (fasNext w o) t
+
+theorem fas_cons (w : Bool) (o : Obs) (t : List Obs) :
+    firstAfterSubOk w (o :: t) = (fasChk w o && firstAfterSubOk (fasNext w o) t) := by
+  cases o with
+  | call id k d sq bd it dec =>
+    cases k <;> cases w <;> simp [firstAfterSubOk, fasChk, fasNext]
+  | _ => cases w <;> simp [firstAfterSubOk, fasChk, fasNext]
+
+theorem fas_append (t1 t2 : List Obs) : ∀ (w : Bool),
+    firstAfterSubOk w (t1 ++ t2) = (firstAfterSubOk w t1 && firstAfterSubOk (fasAfter w t1) t2) := by
+  induction t1 with
+  | nil => intro w; simp [firstAfterSubOk, fasAfter]
+  | cons o t ih => intro w; simp only [List.cons_append, fas_cons, fasAfter, ih, Bool.and_assoc]
+
+theorem fasAfter_append (t1 t2 : List Obs) : ∀ (w : Bool),
+    fasAfter w (t1 ++ t2) = fasAfter (fasAfter w t1) t2 := by
+  induction t1 with
+  | nil => intro w; rfl
+  | cons o t ih => intro w; simp only [List.cons_append, fasAfter, ih]
+
+theorem fas_quiet (o : List Obs) (h : ∀ x ∈ o, quietO x = true) : ∀ (w : Bool),
+    firstAfterSubOk w o = true ∧ fasAfter w o = w := by
+  induction o with
+  | nil => intro w; simp [firstAfterSubOk, fasAfter]
+  | cons x t ih =>
+    intro w
+    have hx := h x (by simp)
+    have ht := ih (fun y hy => h y (by simp [hy]))
+    cases x <;> simp [quietO] at hx <;> simp [fas_cons, fasAfter, fasChk, fasNext, ht]
+
+def preNb : NodePc → Bool
+  | .waitNb _ _ _ | .nbDone _ _ _ => false
+  | _ => true
+
+def FInv (s : St) (w : Bool) : Prop := w = true → s.birthed = false ∧ preNb s.node = true
+
+theorem fas_call (pre post : List Obs) (id : Nat) (k : CK) (d sq bd : Option Nat) (it : Bool)
+    (dec : Dec) (hpre : ∀ x ∈ pre, quietO x = true) (hpost : ∀ x ∈ post, quietO x = true)
+    (hk : k.bearsSeq = true ∨ k = .ndeath ∨ k = .disconnect) (w : Bool) :
+    firstAfterSubOk w (pre ++ Obs.call id k d sq bd it dec :: post) = (if k.bearsSeq then !w else true) ∧
+    (k.bearsSeq = false → fasAfter w (pre ++ Obs.call id k d sq bd it dec :: post) = w) ∧
+    (w = false → fasAfter w (pre ++ Obs.call id k d sq bd it dec :: post) = false) := by
+  have h1 := fas_quiet pre hpre w
+  have h2 := fun w => fas_quiet post hpost w
+  refine ⟨?_, ?_, ?_⟩
+  · rw [fas_append, h1.1, h1.2, fas_cons, (h2 _).1]
+    rcases hk with hk | hk | hk <;> cases k <;> cases w <;> simp_all [fasChk, CK.bearsSeq]
+  · intro hb
+    rw [fasAfter_append, h1.2]; simp only [fasAfter, (h2 _).2]
+    rcases hk with hk | hk | hk <;> cases k <;> cases w <;> simp_all [fasNext, CK.bearsSeq]
+  · intro hw
+    rw [fasAfter_append, h1.2]; simp only [fasAfter, (h2 _).2]
+    rcases hk with hk | hk | hk <;> cases k <;> simp_all [fasNext, CK.bearsSeq]
+
+theorem preNb_of_quiet (n : NodePc) (h : quietN n = true) : preNb n = true := by
+  cases n <;> simp [quietN, preNb] at *
+
+theorem fas_step (s s' : St) (o : List Obs) (w : Bool) (hs : SInv s)
+    (hf : FInv s w) (h : Step s s' o) :
+    firstAfterSubOk w o = true ∧ FInv s' (fasAfter w o) := by
+  obtain ⟨bo, busy, cg, wn, _, q0, q1, f1, f2, f3⟩ := hs
+  unfold FInv at *
+  cases h with
+  | loop hk ht ho =>
+    obtain ⟨k1, k2, k3, k4, k5⟩ := hk
+    rcases ho with ho | ⟨bd, rfl, ho⟩
+    · obtain ⟨h1, h2⟩ := fas_quiet o ho w
+      refine ⟨h1, ?_⟩
+      rw [h2, k2, k3]; exact hf
+    · refine ⟨by simp [firstAfterSubOk], ?_⟩
+      simp only [fasAfter, fasNext]
+      rw [k2, k3]; exact hf
+  | data hd =>
+    obtain ⟨⟨k1, k2, k3, k4, k5, k6, k7⟩, ht⟩ := hd
+    rcases ht with ⟨hc, ho⟩ | ⟨c, dec, pre, post, hc, rfl, hpre, hpost, hb, hk⟩
+    · obtain ⟨h1, h2⟩ := fas_quiet o ho w
+      refine ⟨h1, ?_⟩
+      rw [h2, k2, k3]; exact hf
+    · obtain ⟨h1, h2, h3⟩ := fas_call pre post s.calls.length c.kind c.dev c.seq c.bd c.isTry dec hpre hpost
+        hk w
+      rw [k2, k3]
+      cases hbs : c.kind.bearsSeq with
+      | true =>
+        have hbt := (hb hbs).2.1
+        have hw : w = false := by
+          cases w with
+          | false => rfl
+          | true => have := (hf rfl).1; simp [hbt] at this
+        refine ⟨by rw [h1, hbs, hw]; rfl, ?_⟩
+        rw [h3 hw]; intro hh; cases hh
+      | false =>
+        refine ⟨by rw [h1, hbs]; rfl, ?_⟩
+        rw [h2 hbs]; exact hf
+  | stim hk ht =>
+    obtain ⟨k1, k2, k3, k4, k5, k6, k7⟩ := hk
+    rcases ht with ⟨hc, rfl⟩ | ⟨id, ok, c, hgc, hres, hc, rfl⟩
+    · refine ⟨by simp [firstAfterSubOk], ?_⟩
+      simp only [fasAfter]; rw [k2, k3]; exact hf
+    · refine ⟨by simp [firstAfterSubOk], ?_⟩
+      simp only [fasAfter, fasNext]; rw [k2, k3]; exact hf
+  | node hl hn ht =>
+    cases ht with
+    | quiet a1 a2 a3 a4 a5 a6 a7 a8 =>
+      obtain ⟨h1, h2⟩ := fas_quiet o a8 w
+      refine ⟨h1, ?_⟩
+      rw [h2, a5]; intro hw; exact ⟨(hf hw).1, preNb_of_quiet _ a2⟩
+    | sub c dec a1 a2 a3 a4 a5 a6 a7 a8 a9 a10 a11 =>
+      subst a10
+      refine ⟨by simp [firstAfterSubOk], ?_⟩
+      simp only [fasAfter, fasNext]
+      grind [preNb]
+    | offNo o1 a1 a2 a3 a4 a5 a6 a7 a8 a9 a10 =>
+      subst a10
+      refine ⟨by simp [firstAfterSubOk], ?_⟩
+      simp only [fasAfter]; rw [a7, a8]; exact hf
+    | offYes o1 bd a1 a2 a3 a4 a5 a6 a7 a8 a9 a10 =>
+      subst a10
+      refine ⟨by simp [firstAfterSubOk], ?_⟩
+      simp only [fasAfter]; grind [preNb]
+    | rebirth fc a1 a2 a3 a4 a5 a6 a7 a8 a9 =>
+      subst a9
+      refine ⟨by simp [firstAfterSubOk], ?_⟩
+      simp only [fasAfter]; grind [preNb]
+    | pre a1 a2 a3 a4 a5 a6 a7 a8 =>
+      subst a8
+      refine ⟨by simp [firstAfterSubOk], ?_⟩
+      simp only [fasAfter]; grind [preNb]
+    | nb bt fc c dec a1 a2 a3 a4 a5 a6 a7 a8 a9 =>
+      subst a5
+      refine ⟨by cases w <;> simp [firstAfterSubOk], ?_⟩
+      simp [fasAfter, fasNext]
+    | nbRes id ok bt fc a1 a2 a3 a4 a5 a6 a7 a8 a9 =>
+      subst a9
+      refine ⟨by simp [firstAfterSubOk], ?_⟩
+      simp only [fasAfter]; grind [preNb]
+    | nbFin ok bt fc a1 a2 a3 a4 a5 a6 a7 a8 =>
+      subst a8
+      refine ⟨by simp [firstAfterSubOk], ?_⟩
+      simp only [fasAfter]; grind [preNb]
+
+theorem fas_runActs (acts : List Act) : ∀ (s s' : St) (w : Bool)
+    (tr : List Obs), SInv s → FInv s w → runActs s acts = some (s', tr) →
+    firstAfterSubOk w tr = true := by
+  induction acts with
+  | nil => intro s s' w tr _ _ h; simp [runActs] at h; rw [h.2]; simp [firstAfterSubOk]
+  | cons a as ih =>
+    intro s s' w tr hi hg h
+    obtain ⟨s1, o1, o2, h1, h2, rfl⟩ := runActs_cons s a as s' tr h
+    have hst := runAct_Step s s1 a o1 h1
+    obtain ⟨g1, g2⟩ := fas_step s s1 o1 w hi hg hst
+    rw [fas_append, g1, Bool.true_and]
+    exact ih s1 s' _ o2 (SInv_Step s s1 o1 hi hst) g2 h2
+
+/-! ### refused publishes (state level) -/
+
+theorem node_publish_refused (s : St) (j : Nat) (isTry : Bool) (n : Nat) (dec : Dec)
+    (r : St × List Obs) (hn : 0 < n)
+    (hu : s.ucalls.find? (·.j == j) = some { j := j, kind := .pub .node isTry n, pc := .start })
+    (hgate : ¬ (s.online = true ∧ s.birthed = true))
+    (h : r ∈ stepUser s j dec) :
+    (r.2 = [.ures j .offline] ∨ r.2 = [.ures j .unbirthed]) ∧ r.1.calls = s.calls ∧ r.1.seq = s.seq := by
+  have hn0 : n ≠ 0 := by omega
+  simp only [stepUser, hu, hn0, if_false, nextSeq, nextSeqIn] at h
+  cases ho : s.online <;> cases hb : s.birthed <;> simp [ho, hb, Except.map] at h hgate <;> subst h <;> simp
+
+theorem device_publish_refused (s : St) (j d : Nat) (isTry : Bool) (n : Nat) (dec : Dec)
+    (r : St × List Obs) (hn : 0 < n)
+    (hu : s.ucalls.find? (·.j == j) = some { j := j, kind := .pub (.dev d) isTry n, pc := .start })
+    (hgate : ¬ (s.online = true ∧ s.birthed = true) ∨
+             (∀ x, findDev d s.devs = some x → x.flag = false ∨ x.epoch ≠ s.epoch))
+    (h : r ∈ stepUser s j dec) :
+    (r.2 = [.ures j .offline] ∨ r.2 = [.ures j .unbirthed]) ∧ r.1.calls = s.calls ∧ r.1.seq = s.seq := by
+  have hn0 : n ≠ 0 := by omega
+  simp only [stepUser, hu, hn0, if_false, nextSeqIn] at h
+  cases hf : findDev d s.devs with
+  | none => simp [hf] at h; subst h; simp
+  | some x =>
+    simp only [hf] at h
+    cases hfl : x.flag with
+    | false => simp [hfl] at h; subst h; simp
+    | true =>
+      cases ho : s.online <;> cases hb : s.birthed <;> simp [hfl, ho, hb, Except.map] at h hgate
+      · subst h; simp
+      · subst h; simp
+      · subst h; simp
+      · have := hgate x hf
+        simp [hfl] at this
+        simp [this] at h
+        subst h; simp
 
 end Srad.Eon.P01
